@@ -347,9 +347,39 @@ type nxCluster struct {
 	snapshotsSaved int
 }
 
+// nxMonitorTags: the property tags whose monitors may raise a violation in the
+// running check (nil = all); see the same mechanism in raftx. Failures without a
+// tag (errors and panics of the code under check) always count.
+var nxMonitorTags map[string]bool
+var nxSuppressed = map[string]int64{}
+
+func nxTagAllowed(msg string) bool {
+	if nxMonitorTags == nil {
+		return true
+	}
+	i := strings.Index(msg, ":")
+	if i <= 0 || i > 12 || msg[0] != 'C' {
+		return true
+	}
+	for _, t := range strings.Split(msg[:i], "/") {
+		if len(t) != 3 || t[0] != 'C' {
+			return true
+		}
+	}
+	for _, t := range strings.Split(msg[:i], "/") {
+		if nxMonitorTags[t] {
+			return true
+		}
+	}
+	nxSuppressed[msg[:i]]++
+	return false
+}
+
 func (c *nxCluster) fail(format string, a ...interface{}) {
 	if c.viol == "" {
-		c.viol = fmt.Sprintf(format, a...)
+		if msg := fmt.Sprintf(format, a...); nxTagAllowed(msg) {
+			c.viol = msg
+		}
 	}
 }
 
